@@ -435,6 +435,7 @@ func C11(run *Run) {
 	defer verifhook.InstallTracer(nil)
 	v := NewVariants()
 	defer v.Close()
+	cacheDesignModel(run) // design level: CheckCache.tla (exhaustive TLC)
 	combos := []string{"server:qc:cc", "server:ic:lic:cc", "server:ic:lic:cc:t300"}
 	nCases := run.Pick(18, 210)
 	rec := &Recorder{}
